@@ -263,7 +263,7 @@ PROPS["C16"] = dict(
 PROPS["C08"] = dict(
     level="proof",
     verus=["c08_wire", "c08_wiring", "c08_shape", "c08_legacy"],
-    witness=["c08_permissions.rs"],
+    witness=["c08_permissions.rs", "c08_roundtrip.rs"],
     labels=["C08."] + MASK,
     kani=[KaniSet("src/data_format/v0.rs", "c08_wire.rs", [
         Harness("c08_wire_scalars", "C08.wire.scalars_twin", "C", "mask (2^32), id (2^64) and both domain unions fully symbolic through the real From impls; loop-free"),
